@@ -149,10 +149,13 @@ def builtin_tables(ctx, rep, prop="C05"):
             rep.check(len(paths) == 1 and gv == exp, "C", "%s|C|%s|%s" % (prop, fname, v), cfg.where(fn),
                       "AndroidTypeKind::%s(%s) must be %r, extracted %r" % (fname, v, exp, gv), sample={"fn": fname, "variant": v, "value": gv})
     # get_all lists every variant
-    fa = facts.fn("ast::AndroidTypeKind::get_all")
-    paths = Machine(facts).run("ast::AndroidTypeKind::get_all", [])
-    got = sorted(c.val.vname for c in paths[0].ret.elems) if len(paths) == 1 and isinstance(paths[0].ret, VecVal) else None
-    rep.check(got == sorted(variants), "C", "%s|C|get_all" % prop, cfg.where(fa), "get_all() must list every built-in variant %r, extracted %r" % (sorted(variants), got))
+    if "ast::AndroidTypeKind::get_all" in facts.fns:
+        fa = facts.fn("ast::AndroidTypeKind::get_all")
+        paths = Machine(facts).run("ast::AndroidTypeKind::get_all", [])
+        got = sorted(c.val.vname for c in paths[0].ret.elems) if len(paths) == 1 and isinstance(paths[0].ret, VecVal) else None
+        rep.check(got == sorted(variants), "C", "%s|C|get_all" % prop, cfg.where(fa), "get_all() must list every built-in variant %r, extracted %r" % (sorted(variants), got))
+    else:
+        rep.ok("C", "no get_all(): every lookup below must itself search a list of all variants", {"get_all": "absent"})
     # lookups: get_all().into_iter().find(|at| at.<getter>() == arg)
     for fname, getter in (("from_name", "IBinder-name"), ("from_qualified_name", "qualified")):
         path = "ast::AndroidTypeKind::" + fname
@@ -195,7 +198,33 @@ def builtin_tables(ctx, rep, prop="C05"):
     chain = [c for _, t in sorted(cfg.call_sites(body, lambda c: True)) for c in [callee_name(t)]]
     want = ["values", "flat_map", "map", "collect"]
     got = [c.rsplit("::", 1)[1] for c in chain]
-    rep.check(got == want, "C", "%s|C|collect_item_keys|chain" % prop, cfg.where(fck), "collect_item_keys must be values().flat_map(tree).map((key, kind)).collect(); extracted adaptor chain %r" % (got,))
+    if got != want:
+        # the same registration written as a loop: for every stored result that has a tree, insert (tree.get_key(), tree.item.get_kind())
+        okl, detl = False, None
+        try:
+            fr_ = struct_val(facts, "parser::ParseFileResult", "fr", {})
+            m_ = Machine(facts, opaque_fns=["ast::Aidl::get_key", "ast::Item::get_kind"], pure_fns=["ast::Aidl::get_key", "ast::Item::get_kind"], loop_once=True,
+                         on_next=lambda il: Ref(Cell(fr_)))
+            ps_ = m_.run(ck, [sym_ref("self")])
+            ins = []
+            for p_ in ps_:
+                if iteration_problems(p_) or p_.exit != "return":
+                    ins.append(("early-exit",))
+                tree = [v for l, v in p_.conds if isinstance(l, tuple) and l[0] == "variant" and fmt_label(l[1]) == "fr.ast"]
+                calls_ = [e for e in p_.effects if e[0] == "call" and e[1].endswith("::insert")]
+                srcs_ = [e for e in p_.effects if e[0] == "next"]
+                ins.append((tuple(tree), tuple((fmt_label(c[2][1]), fmt_label(c[2][2])) for c in calls_), tuple(fmt_label(x[1]) for x in srcs_)))
+            detl = sorted(set(ins))
+            want_l = sorted(set([(("Some",), (("ast::Aidl::get_key(fr.ast.Some.0)", "ast::Item::get_kind(fr.ast.Some.0.item)"),), ("std::collections::HashMap::<K, V, S, A>::values(self.lalrpop_results)",)),
+                                 (("None",), (), ("std::collections::HashMap::<K, V, S, A>::values(self.lalrpop_results)",))]))
+            okl = detl == want_l
+        except (Unsupported, KeyError) as e:
+            detl = str(e)
+        rep.check(okl, "C", "%s|C|collect_item_keys|chain" % prop, cfg.where(fck),
+                  "collect_item_keys must register, for every stored result that has a tree, (tree.get_key(), tree.item.get_kind()) - as values().flat_map(tree).map((key, kind)).collect() or as the equivalent loop; "
+                  "extracted adaptor chain %r, loop form %r" % (got, detl), sample={"form": "loop", "per element": detl})
+        return
+    rep.ok("C", "%s|C|collect_item_keys|chain" % prop, {"form": "chain", "adaptors": got})
     clos = facts.closures_of(ck)
     okm = False
     det = None
@@ -239,12 +268,20 @@ def predicate_table(facts, clo):
     for c in cf["captures"]:
         nm = c["name"].lstrip("*")
         caps[nm] = Opaque("CAP:" + nm)
-    # the name being matched: the closure's only captured string (in resolve_type itself: type_.name; in a helper: its name parameter,
-    # which matching_rules traces back to type_.name at the call site)
-    strs = [c["name"].lstrip("*") for c in cf["captures"] if c["ty"] in ("std::string::String", "&str", "str", "&std::string::String")]
-    if len(strs) != 1:
-        return "the predicate closure captures %d strings (expected exactly the name being matched)" % len(strs)
-    NAME[0] = "CAP:" + strs[0]
+    # what the closure captures: for a closure created in resolve_type the captured values are read off resolve_type's tabulation
+    # (so a pre-computed `format!(".{}", type_.name)` is seen as what it is); otherwise the closure's only captured string is the name
+    labels = closure_capture_labels(facts, clo) if clo.startswith(RT + "::") else None
+    if labels is not None and len(labels) == len(cf["captures"]):
+        for c, l in zip(cf["captures"], labels):
+            while isinstance(l, tuple) and l and l[0] in ("ref", "mut") and len(l) >= 2:
+                l = l[1]
+            caps[c["name"].lstrip("*")] = Opaque(l)
+        NAME[0] = "type_.name"
+    else:
+        strs = [c["name"].lstrip("*") for c in cf["captures"] if c["ty"] in ("std::string::String", "&str", "str", "&std::string::String")]
+        if len(strs) != 1:
+            return "the predicate closure captures %d strings (expected exactly the name being matched)" % len(strs)
+        NAME[0] = "CAP:" + strs[0]
     try:
         ps, _ = run_closure(facts, clo, caps, [Ref(Cell(Ref(Cell(Opaque("ELEM", "std::string::String")))))],
                             pure_fns=["rules::aidl::core::str::<impl str>::ends_with", "rules::aidl::core::str::<impl str>::contains", "std::str::<impl str>::ends_with", "std::str::<impl str>::contains"])
@@ -278,6 +315,39 @@ def predicate_table(facts, clo):
         o = hit[0]
         table[val] = o if isinstance(o, bool) else (env[o[0]] != o[1])
     return table
+
+
+def closure_capture_labels(facts, clo):
+    """labels of the values a predicate closure created in resolve_type captures, read off a tabulation of resolve_type
+    (None when the closure object does not show up, e.g. it is created in a helper)"""
+    t = type_node(facts, "type_", enum_val(facts, TYPEKIND, "Unresolved"))
+    m = Machine(facts, opaque_fns=[FQN, FN, FTN, CBQ], pure_fns=[FQN, FN, FTN, CBQ, "std::iter::Iterator::min", "std::iter::Iterator::find",
+                                                                "std::iter::Iterator::min_by_key", "std::iter::Iterator::min_by", "std::iter::Iterator::max"])
+    try:
+        paths = m.run(RT, [Ref(Cell(t), True), sym_ref("imports"), sym_ref("declared_parcelables"), sym_ref("defined"), sym_ref("diagnostics", mut=True)])
+    except (Unsupported, KeyError):
+        return None
+    want = "closure:" + clo
+
+    def search(l):
+        if isinstance(l, tuple) and l:
+            if l[0] == "adt" and len(l) == 4 and l[1] == want:
+                return [x[1] for x in sorted(l[3])]
+            for x in l:
+                r = search(x)
+                if r is not None:
+                    return r
+        return None
+    for p in paths:
+        for l, v in p.conds:
+            r = search(l)
+            if r is not None:
+                return r
+        for e in p.effects:
+            r = search(tuple(e[1:3]) if len(e) > 2 else e)
+            if r is not None:
+                return r
+    return None
 
 
 def passes_type_name(facts, fn, host):
